@@ -589,6 +589,11 @@ class Executor:
                 return [(it, ex)]
         pre_locals = dict(it.locals)
         self._havoc(it, s.body, fctx, oid, loop=s)
+        if has_yield:
+            # an arbitrary iteration of a loop that suspends starts after a suspension: what other processes may
+            # change is read afresh there, and is not what a local holds that was loaded before the loop
+            it.epoch += 1
+            self._flush_volatile(it)
         # what the loop starts from: the values of its loop-carried locals on entry
         init_effects = []
         for nm, sym in it.counters.get('__carried__%s' % oid, []):
